@@ -153,7 +153,7 @@ func pollDataPayload(c gwc.Conn, want int, d time.Duration) (payload []byte, per
 func runC06On(c c06Case, o gwOpts, tgt gwc.Target) *Violation {
 	w := W()
 	snap := w.snap()
-	defer w.observe(snap)
+	defer w.observe(snap, 0)
 	conn, err := gwc.Dial(c.Kind, tgt, sess.NewConnID())
 	if err != nil {
 		return viol("c06/open", "transport did not open: %v", err)
